@@ -18,7 +18,9 @@ multi_strings! family), the parts of the reader that are tables, constants, matc
   RD_READ_STEPS       Minidump::read: its statements, in order (little-endian header, signature or byte-swapped signature,
                       big-endian re-read, version test, seek, directory walk with BTreeMap::insert, system info, result);
                       the warn! calls are ignored; any other statement that touches the map or returns aborts
-  (checked, no output) the bodies of get_stream, get_raw_stream, location_slice, get_memory, all_streams, unknown_streams
+  (checked, no output) the bodies of get_stream, get_raw_stream, location_slice, get_memory, all_streams, unknown_streams,
+                      MinidumpLinuxMaps::read / iter, MinidumpLinuxMapInfo::memory_range / is_readable / is_writable / is_executable
+  RD_PROCFS_CORE_VERSION  the procfs-core version of Cargo.lock (C02/ModelR6.v models that version's MemoryMaps::from_read)
 
 Aborts (exit 2) on source it does not recognise."""
 import os
@@ -332,6 +334,46 @@ if gm != ("self.get_stream::<MinidumpMemory64List>() .map(UnifiedMemoryList::Mem
 alls = fn_body(r"pub fn all_streams\(&self\) -> impl Iterator<Item = &md::MINIDUMP_DIRECTORY> \+ '_ \{", "all_streams")
 if alls != "self.streams.iter().map(|(_, (_, stream))| stream)":
     die("all_streams changed: %s" % alls)
+# ---- MinidumpLinuxMaps: the typed reader hands the raw bytes to procfs-core's MemoryMaps::from_read and keeps every map in order;
+#      the model of that parser (C02/ModelR6.v) follows the procfs-core version the lock file names
+im = rd.find("impl<'a> MinidumpStream<'a> for MinidumpLinuxMaps<'a> {")
+if im < 0:
+    die("impl MinidumpStream for MinidumpLinuxMaps")
+blk = rd[im:matching(rd, rd.index("{", im)) + 1]
+mr = re.search(r"fn read\(\s*bytes: &'a \[u8\],\s*_all: &'a \[u8\],\s*_endian: scroll::Endian,\s*_system_info: Option<&MinidumpSystemInfo>,\s*\) -> Result<MinidumpLinuxMaps<'a>, Error> \{", blk)
+if not mr:
+    die("MinidumpLinuxMaps::read signature")
+mbody = re.sub(r"\s+", " ", blk[mr.end():matching(blk, mr.end() - 1)]).strip()
+if mbody != ("let maps = MemoryMaps::from_read(std::io::Cursor::new(bytes)).map_err(|e| { tracing::error!(\"linux memory map read error: {e}\"); "
+             "Error::StreamReadFailure })?; Ok(MinidumpLinuxMaps::from_regions( maps.into_iter() .map(|map| MinidumpLinuxMapInfo { map, _phantom: PhantomData, }) "
+             ".collect(), ))"):
+    die("MinidumpLinuxMaps::read changed: %s" % mbody)
+ii = rd.find("impl MinidumpLinuxMapInfo<'_> {")
+if ii < 0:
+    die("impl MinidumpLinuxMapInfo")
+iblk = rd[ii:matching(rd, rd.index("{", ii)) + 1]
+for sig, want in [(r"pub fn memory_range\(&self\) -> Option<Range<u64>> \{",
+                   "if self.map.address.0 > self.map.address.1 { return None; } Some(Range::new(self.map.address.0, self.map.address.1))"),
+                  (r"pub fn is_readable\(&self\) -> bool \{", "self.map.perms.contains(MMPermissions::READ)"),
+                  (r"pub fn is_writable\(&self\) -> bool \{", "self.map.perms.contains(MMPermissions::WRITE)"),
+                  (r"pub fn is_executable\(&self\) -> bool \{", "self.map.perms.contains(MMPermissions::EXECUTE)")]:
+    mq = re.search(sig, iblk)
+    if not mq:
+        die("MinidumpLinuxMapInfo: %s" % sig)
+    got = re.sub(r"\s+", " ", iblk[mq.end():matching(iblk, mq.end() - 1)]).strip()
+    if got != want:
+        die("MinidumpLinuxMapInfo accessor changed: %s" % got)
+itr = re.search(r"pub fn iter<'slf>\(&'slf self\) -> impl Iterator<Item = &'slf MinidumpLinuxMapInfo<'mdmp>> \{\s*self\.regions\.iter\(\)\s*\}", rd)
+if not itr:
+    die("MinidumpLinuxMaps::iter changed")
+try:
+    LOCK = open(os.path.join(repo, "Cargo.lock")).read()
+except OSError:
+    die("Cargo.lock not found")
+pv = re.findall(r'name = "procfs-core"\nversion = "([0-9]+)\.([0-9]+)\.([0-9]+)"', LOCK)
+if len(pv) != 1:
+    die("Cargo.lock: exactly one procfs-core entry expected, found %d" % len(pv))
+lines.append("Definition RD_PROCFS_CORE_VERSION : list Z := [%s; %s; %s]." % pv[0])
 lines.append("Definition RD_VERSION_MASK : Z := %d." % intlit(mm.group(1)))
 lines.append("Definition RD_READ_STEPS : list string := [%s]." % "; ".join('"%s"' % n for n in READ_STEPS))
 lines.append('Definition RD_ACCESSORS_PINNED : list string := ["get_stream"; "get_raw_stream"; "location_slice"; "get_memory"; "all_streams"; "unknown_streams"; "unimplemented_streams"].')
